@@ -36,8 +36,23 @@ Abs(x) == IF x < 0 THEN -x ELSE x
 Sgn(x) == IF x < 0 THEN -1 ELSE 1
 Tdiv(a, b) == Sgn(a) * Sgn(b) * (Abs(a) \div Abs(b))          \* truncating division
 Tmod(a, b) == a - b * Tdiv(a, b)                               \* remainder with the sign of the dividend
+\* fractional numbers are exact rationals <<"q", num, den>> with den > 0 (decimal literals and results of
+\* arithmetic on them); integer div stays truncating only when both operands are integers
+QV(p, q) == <<"q", p, q>>
+NumOf(a) == IF a[1] = "i" THEN a[2] ELSE a[2]
+DenOf(a) == IF a[1] = "i" THEN 1 ELSE a[3]
+RECURSIVE Gcd(_, _)
+Gcd(x, y) == IF y = 0 THEN x ELSE Gcd(y, x % y)
+NormQ(p, q) == LET g == Gcd(Abs(p), q) IN IF g = 0 THEN QV(0, 1) ELSE QV(p \div g, q \div g)
+ArithQ(o, a, b) ==
+  LET p1 == NumOf(a) q1 == DenOf(a) p2 == NumOf(b) q2 == DenOf(b) IN
+  CASE o = "add" -> NormQ(p1 * q2 + p2 * q1, q1 * q2)
+    [] o = "sub" -> NormQ(p1 * q2 - p2 * q1, q1 * q2)
+    [] o = "mul" -> NormQ(p1 * p2, q1 * q2)
+    [] o = "div" -> IF p2 = 0 THEN NULL ELSE NormQ(Sgn(p2) * p1 * q2, q1 * Abs(p2))
 Arith(o, a, b) ==
   IF a = NULL \/ b = NULL THEN NULL
+  ELSE IF a[1] = "q" \/ b[1] = "q" THEN ArithQ(o, a, b)
   ELSE IF o \in {"div", "mod"} /\ b[2] = 0 THEN NULL            \* excluded by the generators; SQLite yields NULL
   ELSE IV(CASE o = "add" -> a[2] + b[2] [] o = "sub" -> a[2] - b[2] [] o = "mul" -> a[2] * b[2]
             [] o = "div" -> Tdiv(a[2], b[2]) [] o = "mod" -> Tmod(a[2], b[2]))
@@ -46,15 +61,17 @@ Arith(o, a, b) ==
 RECURSIVE SeqLt(_, _)
 SeqLt(x, y) == IF Len(y) = 0 THEN FALSE ELSE IF Len(x) = 0 THEN TRUE
                ELSE IF x[1] # y[1] THEN x[1] < y[1] ELSE SeqLt(Tail(x), Tail(y))
-Lt(a, b) == CASE a[1] = "i" -> a[2] < b[2]
+IsNum(a) == a[1] \in {"i", "q"}
+Lt(a, b) == CASE IsNum(a) -> NumOf(a) * DenOf(b) < NumOf(b) * DenOf(a)
               [] a[1] = "s" -> SeqLt(a[2], b[2])
               [] a[1] = "b" -> (~a[2]) /\ b[2]
               [] a[1] = "t" -> SeqLt(Tail(a), Tail(b))
 Compare(o, a, b) ==
   IF a = NULL \/ b = NULL THEN NULL
-  ELSE BV(CASE o = "eq" -> a = b [] o = "ne" -> a # b
-            [] o = "lt" -> Lt(a, b) [] o = "le" -> Lt(a, b) \/ a = b
-            [] o = "gt" -> Lt(b, a) [] o = "ge" -> Lt(b, a) \/ a = b)
+  ELSE LET same == IF IsNum(a) THEN NumOf(a) * DenOf(b) = NumOf(b) * DenOf(a) ELSE a = b IN
+       BV(CASE o = "eq" -> same [] o = "ne" -> ~same
+            [] o = "lt" -> Lt(a, b) [] o = "le" -> Lt(a, b) \/ same
+            [] o = "gt" -> Lt(b, a) [] o = "ge" -> Lt(b, a) \/ same)
 
 \* ------------------------------------------------------------------ strings
 StartsAt(p, x, i) == i + Len(p) - 1 <= Len(x) /\ SubSeq(x, i, i + Len(p) - 1) = p
@@ -79,7 +96,10 @@ LikeMatch(p, x) ==
   ELSE IF x = <<>> THEN FALSE
   ELSE (p[1] = 95 \/ LowerC(p[1]) = LowerC(x[1])) /\ LikeMatch(Tail(p), Tail(x))
 
-StrFn2(f, a, b, patternIsLiteral) ==
+StrFn2(f, a0, b0, patternIsLiteral) ==
+  LET a == IF f = "concat" /\ "concat_null_as_empty" \in Deviations /\ a0 = NULL THEN SV(<<>>) ELSE a0
+      b == IF f = "concat" /\ "concat_null_as_empty" \in Deviations /\ b0 = NULL THEN SV(<<>>) ELSE b0
+  IN
   IF a = NULL \/ b = NULL THEN NULL
   ELSE IF "like_dynamic_meta" \in Deviations /\ ~patternIsLiteral /\ f \in {"contains", "startswith", "endswith"}
        THEN BV(LikeMatch((IF f = "startswith" THEN <<>> ELSE <<37>>) \o b[2] \o (IF f = "endswith" THEN <<>> ELSE <<37>>), a[2]))
@@ -95,8 +115,12 @@ DateTimeLits == [ x \in {"2019-12-31T23:59:59", "2020-02-29T00:00:00", "2021-01-
                       [] x = "2020-02-29T00:00:00" -> TV(2020, 2, 29, 0, 0, 0)
                       [] x = "2021-01-01T10:05:00" -> TV(2021, 1, 1, 10, 5, 0)
                       [] x = "2020-02-29T00:00:01" -> TV(2020, 2, 29, 0, 0, 1) ]
+FloatLits == [ x \in {"2.0", "0.5", "1.5", "2.5", "-0.5"} |->
+                 CASE x = "2.0" -> QV(2, 1) [] x = "0.5" -> QV(1, 2) [] x = "1.5" -> QV(3, 2) [] x = "2.5" -> QV(5, 2)
+                   [] x = "-0.5" -> QV(-1, 2) ]
 LitVal(k, v) == CASE k = "Null" -> NULL
                   [] k = "Integer" -> IV(v)
+                  [] k = "Float" -> FloatLits[v]
                   [] k = "String" -> SV(v)
                   [] k = "Boolean" -> BV(v = "true")
                   [] k = "DateTime" -> DateTimeLits[v]
@@ -126,7 +150,8 @@ Eval(t, env) ==
     [] t[1] = "Lit"  -> LitVal(t[2], t[3])
     [] t[1] = "Bin"  -> Arith(t[2], Eval(t[3], env), Eval(t[4], env))
     [] t[1] = "Un"   -> IF t[2] = "not" THEN Not3(Eval(t[3], env))
-                        ELSE LET a == Eval(t[3], env) IN IF a = NULL THEN NULL ELSE IV(-a[2])
+                        ELSE LET a == Eval(t[3], env) IN
+                             IF a = NULL THEN NULL ELSE IF a[1] = "q" THEN QV(-a[2], a[3]) ELSE IV(-a[2])
     [] t[1] = "Bool" -> IF t[2] = "and" THEN And3(Eval(t[3], env), Eval(t[4], env)) ELSE Or3(Eval(t[3], env), Eval(t[4], env))
     [] t[1] = "Cmp"  ->
          IF t[2] = "in" THEN
